@@ -29,8 +29,10 @@ CpuOK(p, op, s) ==
          \* Which cores it may use is the resource plugin's business (C32), not judged here.
          /\ IF p.cpu100 = 0 THEN Unlimited(s.quota) ELSE s.quota = p.cpu100 * (Period \div 100)
          /\ s.period = Period
+\* memory limit 0 = unlimited.  On create Docker reads 0 as "no limit"; on UPDATE Docker reads 0 as
+\* "leave unchanged", so lifting a limit must send the maximum (-1 here).
 MemOK(p, op, s) ==
-    IF p.memMiB = 0 THEN s.memMiB \in {0, -1} /\ s.swapMiB = s.memMiB
+    IF p.memMiB = 0 THEN s.memMiB = (IF op = "create" THEN 0 ELSE -1) /\ s.swapMiB = s.memMiB
     ELSE s.memMiB = p.memMiB /\ s.swapMiB = p.memMiB
 C31ok(p, op, class, s) == class = "ok" /\ CpuOK(p, op, s) /\ MemOK(p, op, s)
 
